@@ -4,6 +4,7 @@ CONSTANTS
   GraphIdempotent = TRUE
   CacheTransparent = TRUE
   SerialsMemoised = TRUE
+  ScopeFixed = TRUE
 INVARIANTS C19_FlatStable C19_GraphStable C19_SerialsStable C19_DerivedStable
 POSTCONDITION TraceAccepted
 CHECK_DEADLOCK FALSE
